@@ -113,7 +113,11 @@ def kname(n):
 
 
 def vname(n):
-    return str(n)
+    return "" if n == 0 else str(n)      # value 0 is the blank string (which the mappings keep)
+
+
+def inv_v(v):
+    return "0" if v == "" else v
 
 
 def nums(tok):
@@ -196,7 +200,7 @@ def build_raw(form, ps):
 
 
 def r_list(vs):
-    return ".".join(vs) if vs else "-"
+    return ".".join(inv_v(v) for v in vs) if vs else "-"
 
 
 def inv_k(name):
@@ -205,7 +209,7 @@ def inv_k(name):
 
 def view(m, nkeys, probe):
     items = m.multi_items()
-    parts = [",".join("%s.%s" % (inv_k(k), v) for k, v in items) if items else "-"]
+    parts = [",".join("%s.%s" % (inv_k(k), inv_v(v)) for k, v in items) if items else "-"]
     ks = list(m.keys())
     parts.append(",".join(inv_k(k) for k in ks) if ks else "-")
     parts.append(str(len(m)))
@@ -213,7 +217,7 @@ def view(m, nkeys, probe):
     for n in range(nkeys):
         k = kname(n)
         try:
-            gi = m[k]
+            gi = inv_v(m[k])
         except KeyError:
             gi = KEYERROR
         per.append("%s:%s:%d" % (r_list(m.getlist(k)), gi, 1 if k in m else 0))
@@ -249,14 +253,14 @@ def apply_op(m, name, args):
         if name == "poplist":
             return "L" + r_list(m.poplist(kname(args[0])))
         if name == "pop":
-            return "V" + m.pop(kname(args[0]))
+            return "V" + inv_v(m.pop(kname(args[0])))
         if name == "popd":
-            return "V" + m.pop(kname(args[0]), vname(args[1]))
+            return "V" + inv_v(m.pop(kname(args[0]), vname(args[1])))
         if name == "popitem":
             k, v = m.popitem()
-            return "I%s.%s" % (inv_k(k), v)
+            return "I%s.%s" % (inv_k(k), inv_v(v))
         if name == "setdefault":
-            return "V" + m.setdefault(kname(args[0]), vname(args[1]))
+            return "V" + inv_v(m.setdefault(kname(args[0]), vname(args[1])))
         if name == "update_pairs":
             m.update([(kname(k), vname(v)) for k, v in args[0]])
             return "N"
@@ -293,12 +297,20 @@ def impl_seq(args):
     ops = decode_ops(nums(args[3]))
     if ops is None or form > 6:
         return "bad-op"
-    m = MutableMultiMapping(build_raw(form, ps))
+    raw = build_raw(form, ps)
+    m = MutableMultiMapping(raw)
     probe = MutableMultiMapping([(kname(k), vname(v)) for k, v in probe_ps])
+    # the mapping this one was built FROM must be left alone by whatever is done to the copy
+    src_probe = type(raw)(raw.multi_items()) if isinstance(raw, MultiMapping) else None
+    src0 = view(raw, nkeys, src_probe) if src_probe is not None else None
     out = [view(m, nkeys, probe)]
     for name, a in ops:
         ret = apply_op(m, name, a)
         out.append(ret + "|" + view(m, nkeys, probe))
+    if src0 is not None:
+        src1 = view(raw, nkeys, src_probe)
+        if src1 != src0:
+            out.append("SOURCE-CHANGED %s -> %s" % (src0, src1))
     return ";".join(out)
 
 
@@ -571,6 +583,9 @@ def oracle_seq(args, out):
     probe = pairs_of(nums(args[2]))
     L = init_list(init[0], pairs_of(init[1:]))
     steps = out.split(";")
+    if steps and steps[-1].startswith("SOURCE-CHANGED"):
+        return ("operating on a mapping changed the mapping it had been constructed from (shared pair list): %s"
+                % steps[-1][:200])
     if len(steps) != len(ops) + 1:
         return "trace has %d states for %d operations: %s" % (len(steps), len(ops), out[:80])
     why = check_view(steps[0], L, nkeys, probe)
@@ -794,12 +809,12 @@ def all_pair_lists(keys, vals, maxlen):
 
 
 def rand_pairs(rng, nk, nv, n):
-    return [(rng.randrange(nk), rng.randrange(1, nv + 1)) for _ in range(n)]
+    return [(rng.randrange(nk), rng.randrange(0, nv + 1)) for _ in range(n)]
 
 
 def rand_op(rng, nk, nv):
     k = rng.randrange(nk)
-    v = rng.randrange(1, nv + 1)
+    v = rng.randrange(0, nv + 1)
     r = rng.random()
     if r < 0.16:
         return [0, k, v]
@@ -808,7 +823,7 @@ def rand_op(rng, nk, nv):
     if r < 0.39:
         return [1, k]
     if r < 0.50:
-        vs = [rng.randrange(1, nv + 1) for _ in range(rng.choice([0, 1, 2, 2, 3]))]
+        vs = [rng.randrange(0, nv + 1) for _ in range(rng.choice([0, 1, 2, 2, 3]))]
         return [3, k, len(vs)] + vs
     if r < 0.56:
         return [4, k]
@@ -876,7 +891,7 @@ def rand_query(rng):
 def cases(rng, tier):
     yield from corpus_lines(PROPERTY)
     thorough = tier == "thorough"
-    keys, vals = [0, 1], [1, 2]
+    keys, vals = [0, 1], [0, 1]      # value 0 is the blank string
     alpha = op_alphabet(keys, vals)
     probe = [(0, 1), (1, 2)]
     # exhaustive: every sequence of length 2 from every initial list of length <= 3 (pairs form; quick: initial
@@ -901,12 +916,12 @@ def cases(rng, tier):
             for c in itertools.product(small, repeat=3):
                 yield mk_seq(2, 1, ps, probe, list(c))
     if thorough:
-        k3 = op_alphabet([0, 1, 2], [1, 2])
-        for ps in all_pair_lists([0, 1, 2], [1, 2], 2):
+        k3 = op_alphabet([0, 1, 2], [0, 1])
+        for ps in all_pair_lists([0, 1, 2], [0, 1], 2):
             for c in itertools.product(k3, repeat=2):
                 yield mk_seq(3, 1, ps, probe, list(c))
     for form in range(7):
-        for ps in all_pair_lists([0, 1, 2], [1, 2], 2):
+        for ps in all_pair_lists([0, 1, 2], [0, 1], 2):
             yield "mm_same 3 %s" % flat([form] + [x for p in ps for x in p])
     # random long sequences
     for _ in range(40000 if thorough else 2500):
